@@ -176,6 +176,24 @@ func run(c *core.Ctx) {
 		}
 	}
 	c.Bound("uri_spelling", fmt.Sprintf("image URIs %q: the same three-model scene stores the same numbers of textures, images, samplers and materials for each", uriMenu))
+	// names outside ASCII: one and two small models, every material, both containers
+	for _, m := range options([]string{"A", "P", "E"}, []string{"-", "M", "Mx"}, []string{"-", "TRS"}, []int{0, 1}) {
+		for _, l := range lights {
+			for _, glb := range conts {
+				if !c.Next() {
+					continue
+				}
+				k.one("models=1/utf8-names", Case{Models: []ModelSpec{m}, Lights: l, GLB: glb, UTF8: true})
+				k.one("models=2/utf8-names", Case{Models: []ModelSpec{m, {Mesh: "Q", Mat: "M", TRS: "-", Inst: 0}}, Lights: l, GLB: glb, UTF8: true})
+			}
+		}
+	}
+	for _, glb := range conts {
+		if c.Next() {
+			k.sinks(glb)
+		}
+	}
+	c.Bound("destinations", fmt.Sprintf("three scenes to %d kinds of io.Writer per container; same bytes demanded", len(core.SinkVariants)))
 	// one mesh whose payload exceeds 32 MiB (both containers)
 	each("models=1/huge", []ModelSpec{{Mesh: "H", Mat: "-", TRS: "-", Inst: 0}})
 	c.Bound("menu.meshes.huge", fmt.Sprintf("H: %d positions (%d bytes of payload)", hugeN, hugeN*12))
@@ -303,6 +321,10 @@ func replay(c *core.Ctx) {
 	var cs Case
 	if err := json.Unmarshal(c.Replay, &cs); err != nil {
 		c.HarnessError("bad case: %v", err)
+		return
+	}
+	if len(cs.SaveSeq) == 1 && cs.SaveSeq[0] == -3 {
+		checker{c}.sinks(cs.GLB)
 		return
 	}
 	if len(cs.SaveSeq) == 1 && cs.SaveSeq[0] == -2 {
